@@ -176,6 +176,11 @@ theorem all_eq (t : Tree K V) : all t = t.toList := by
   unfold all
   rw [traverse_eq _ (by decide), foldUntil_collect_zero, listing_ascending]; simp
 
+theorem allUntil_eq (limit : Nat) (t : Tree K V) : allUntil limit t = Spec.takeLim limit t.toList := by
+  have := traverseCollect_eq .ascending (by decide) limit t
+  rw [listing_ascending] at this
+  exact this
+
 theorem foldUntil_test (f : K → V → Bool) (xs : List (K × V)) :
     (foldUntil (fun k v (_ : Unit) => (f k v, ())) xs ()).1 = xs.all (fun x => f x.1 x.2) := by
   induction xs with
